@@ -1,0 +1,48 @@
+//go:build verif
+
+package synchronization
+
+// Contracts for the halted state of a session (property C11: "It stops in a
+// halted state, changes neither endpoint, and stays halted until the user
+// intervenes"). Comment-only file, read by govc.
+
+// haltcause records, for the synchronization cycle being executed, which of
+// the three safety checks was positive: 0 none, 1 one endpoint emptied the
+// root, 2 a root deletion would be propagated, 3 a root type change would be
+// propagated. It is assigned only by the set clauses below, from the results
+// of the three checking functions (whose own contracts, verified for C11, tie
+// their results to the predicates emptied / rootDeletion / rootTypeChange).
+//@ ghost haltcause int
+
+//@ pred haltedStatus(s) = s == Status_HaltedOnRootEmptied || s == Status_HaltedOnRootDeletion || s == Status_HaltedOnRootTypeChange
+
+// The synchronization loop. A positive safety check always ends the loop with
+// the sentinel error errHaltedForSafety and the matching Halted* status in the
+// session state [haltpath, haltstatus]; the sentinel is returned on no other
+// path [haltonly] (every other error is freshly built by fmt.Errorf /
+// errors.New).
+//@ func (*controller).synchronize
+//@   requires c != nil && c.state != nil
+//@   at entry set haltcause = 0
+//@   at call oneEndpointEmptiedRoot set haltcause = result ? 1 : 0
+//@   at call containsRootDeletion set haltcause = result ? 2 : haltcause
+//@   at call containsRootTypeChange set haltcause = result ? 3 : haltcause
+//@   loop 1 invariant[nohalt] haltcause == 0
+//@   ensures[haltpath] haltcause != 0 ==> result == errHaltedForSafety
+//@   ensures[haltonly] result == errHaltedForSafety ==> haltcause != 0
+//@   ensures[haltstatus] haltcause == 1 ==> c.state.Status == Status_HaltedOnRootEmptied
+//@   ensures[haltstatus] haltcause == 2 ==> c.state.Status == Status_HaltedOnRootDeletion
+//@   ensures[haltstatus] haltcause == 3 ==> c.state.Status == Status_HaltedOnRootTypeChange
+//@   ensures[haltstatus] result == errHaltedForSafety ==> haltedStatus(c.state.Status)
+
+// The run loop. Once a synchronization loop has ended with the sentinel (a
+// safety check was positive), no further connection attempt and no further
+// synchronization loop is started: the only thing run still does is wait for
+// the cancellation of its context and return.
+//@ func (*controller).run
+//@   at entry set haltcause = 0
+// (the reconnection loop and the outer loop share their header: one loop)
+//@   loop 1 invariant[stayhalted] haltcause == 0
+//@   at call connect assert[stayhalted] haltcause == 0
+//@   at call (*controller).synchronize assert[stayhalted] haltcause == 0
+//@   at call time.After assert[stayhalted] haltcause == 0
